@@ -264,6 +264,7 @@ class AsyncTunnelHTTPConnection(AsyncConnectionInterface):
 
     async def handle_async_request(self, request: Request) -> Response:
         timeouts = request.extensions.get("timeout", {})
+        sni_hostname = request.extensions.get("sni_hostname", None)
         timeout = timeouts.get("connect", None)
 
         async with self._connect_lock:
@@ -279,11 +280,18 @@ class AsyncTunnelHTTPConnection(AsyncConnectionInterface):
                 connect_headers = merge_headers(
                     [(b"Host", target), (b"Accept", b"*/*")], self._proxy_headers
                 )
+                # The 'sni_hostname' extension is for the TLS connection to the
+                # origin inside the tunnel, not for the one to the proxy itself.
+                connect_extensions = {
+                    key: value
+                    for key, value in request.extensions.items()
+                    if key != "sni_hostname"
+                }
                 connect_request = Request(
                     method=b"CONNECT",
                     url=connect_url,
                     headers=connect_headers,
-                    extensions=request.extensions,
+                    extensions=connect_extensions,
                 )
                 connect_response = await self._connection.handle_async_request(
                     connect_request
@@ -310,7 +318,8 @@ class AsyncTunnelHTTPConnection(AsyncConnectionInterface):
 
                     kwargs = {
                         "ssl_context": ssl_context,
-                        "server_hostname": self._remote_origin.host.decode("ascii"),
+                        "server_hostname": sni_hostname
+                        or self._remote_origin.host.decode("ascii"),
                         "timeout": timeout,
                     }
                     try:
